@@ -29,6 +29,7 @@ import (
 
 	"github.com/containerd/nri/pkg/api"
 	"github.com/containerd/nri/pkg/log"
+	"github.com/containerd/nri/pkg/verifhook"
 	"github.com/containerd/ttrpc"
 	"github.com/tetratelabs/wazero"
 	"github.com/tetratelabs/wazero/imports/wasi_snapshot_preview1"
@@ -512,8 +513,10 @@ func (r *Adaptation) acceptPluginConnections(l net.Listener) error {
 			}
 
 			r.requestPluginSync()
+			verifhook.Point("adaptation.sync.requested")
 
 			err = r.syncFn(ctx, p.synchronize)
+			verifhook.Point("adaptation.sync.done")
 			if err != nil {
 				log.Infof(ctx, "failed to synchronize plugin: %v", err)
 			} else {
@@ -524,6 +527,7 @@ func (r *Adaptation) acceptPluginConnections(l net.Listener) error {
 				log.Infof(ctx, "plugin %q connected and synchronized", p.name())
 			}
 
+			verifhook.Point("adaptation.sync.finishing")
 			r.finishedPluginSync()
 		}
 	}()
